@@ -113,3 +113,36 @@ func init() {
 		return &cell
 	})
 }
+
+func init() {
+	// net.Dialer.Dial / tls.Dialer.Dial return the connection the harness
+	// put into the package variable verifDialConn (nil => dial error).
+	dial := func(ex *Exec, fr *frame, a []value) value {
+		g, ok := ex.prog.Pkg.Members["verifDialConn"]
+		if !ok {
+			ex.inconclusive("Dial without a harness connection (verifDialConn)")
+		}
+		gv := *ex.global(g.(*ssaGlobal))
+		conn := gv.(iface)
+		if conn.t == nil {
+			return tuple{iface{}, ex.newError(fr, "verif: dial failed", iface{})}
+		}
+		return tuple{conn, iface{}}
+	}
+	reg("(*net.Dialer).Dial", dial)
+	reg("(*crypto/tls.Dialer).Dial", func(ex *Exec, fr *frame, a []value) value {
+		ex.inconclusive("tls.Dialer.Dial (implicit TLS dialing) is not stubbed")
+		return nil
+	})
+	reg("net.SplitHostPort", func(ex *Exec, fr *frame, a []value) value {
+		s, ok := a[0].(string)
+		if !ok {
+			ex.inconclusive("net.SplitHostPort on symbolic text")
+		}
+		h, p, err := netSplitHostPort(s)
+		if err != nil {
+			return tuple{"", "", ex.newError(fr, err.Error(), iface{})}
+		}
+		return tuple{h, p, iface{}}
+	})
+}
